@@ -17,6 +17,11 @@ SPEC = os.path.join(VERIF, "spec")
 HARNESS = os.path.join(VERIF, "harness")
 EVID = os.path.join(VERIF, "evidence")
 REPLAYS = os.path.join(VERIF, "replays")
+if os.path.realpath(REPO) != "/repo":
+    # development aid (a scratch copy of the repository with a seeded change): evidence/ describes /repo only
+    EVID = os.path.join(tempfile.gettempdir(), "verif-evidence-%d" % os.getpid())
+    REPLAYS = os.path.join(tempfile.gettempdir(), "verif-replays-mutants")
+    os.makedirs(EVID, exist_ok=True)
 KNOWN = os.path.join(VERIF, "known_findings.jsonl")
 NCPU = os.cpu_count() or 4
 
@@ -72,6 +77,9 @@ def build_harness(race=False):
     elif os.path.exists(gosum):
         shutil.copy(gosum, os.path.join(HARNESS, "go.sum"))
     env = dict(GOENV)
+    if os.environ.get("VERIF_COVER"):
+        # development aid: statement coverage of the library under the harness (GOCOVERDIR must be set by the caller)
+        cmd[2:2] = ["-cover", "-coverpkg=github.com/at-wat/mqtt-go"]
     if race:
         cmd.insert(2, "-race")
         env["CGO_ENABLED"] = "1"
@@ -381,6 +389,13 @@ def main_wrapper(fn):
         rc = fn()
     except Infra as e:
         print("INFRA-ERROR: %s" % e, file=sys.stderr)
+        rc = 2
+    except SystemExit:
+        raise
+    except BaseException:   # a defect of the machinery is never a verdict about the library
+        import traceback
+        traceback.print_exc()
+        print("INFRA-ERROR: internal error of the check (see traceback)", file=sys.stderr)
         rc = 2
     finally:
         if not os.environ.get("VERIF_KEEP"):
